@@ -299,7 +299,8 @@ func (d *decompressor) readMember() error {
 	skipped := int(d.cr.offset() - mark)
 	need := d.blockSize - skipped
 	if need == 0 {
-		return io.EOF
+		// A member cannot end with its header.
+		return ErrCorrupt
 	} else if need < 0 {
 		return ErrCorrupt
 	}
@@ -307,7 +308,13 @@ func (d *decompressor) readMember() error {
 	// Read compressed data into the decompressor buffer until the
 	// underlying flate.Reader is positioned at the end of the gzip
 	// member in which the readMember call was made.
-	return d.buf.readLimited(need, d.cr)
+	err = d.buf.readLimited(need, d.cr)
+	if err == io.EOF {
+		// The header of the member was read, so the
+		// stream cannot legitimately end here.
+		err = io.ErrUnexpectedEOF
+	}
+	return err
 }
 
 // Offset is a BGZF virtual offset.
